@@ -1064,6 +1064,17 @@ class Engine:
         return [Outcome("continue", st)]
 
     def s_FunctionDef(self, s, st):
+        # a nested function may have its own contract (qualname Outer.<locals>.inner): then calls use the contract
+        c = None
+        if getattr(self, "contract", None) is not None:
+            c = self.registry.contracts.get(f"{self.contract.module}.{self.contract.qualname}.<locals>.{s.name}")
+        if c is not None:
+            captured = dict(st.vars)
+
+            def call(eng, st2, pos, kw, c=c):
+                return c.apply(eng, st2, pos, kw, None, closure_env={**captured, **st2.vars})
+
+            return [Outcome("normal", st.bind(s.name, FuncV(call, s.name)))]
         return [Outcome("normal", st.bind(s.name, ClosureV(s, dict(st.vars), s.name)))]
 
     def s_Import(self, s, st):
